@@ -7,6 +7,7 @@ require (
 	github.com/fatedier/golib v0.5.1
 	github.com/samber/lo v1.47.0
 	golang.org/x/net v0.39.0
+	golang.org/x/time v0.5.0
 )
 
 require (
@@ -49,7 +50,6 @@ require (
 	golang.org/x/sync v0.13.0 // indirect
 	golang.org/x/sys v0.32.0 // indirect
 	golang.org/x/text v0.24.0 // indirect
-	golang.org/x/time v0.5.0 // indirect
 	golang.zx2c4.com/wireguard v0.0.0-20231211153847-12269c276173 // indirect
 	google.golang.org/protobuf v1.34.1 // indirect
 	gopkg.in/ini.v1 v1.67.0 // indirect
